@@ -229,6 +229,28 @@ def assd_above_one_corpus(ctx):
         one_case(ctx, pred, ref, "ASSD", thr, "corpus.assd-above-one")
 
 
+def hairline_corpus(ctx):
+    """scores a hair away from the threshold or from each other (unions of a few thousand voxels): a single candidate with
+    IoU 1000/2001 against threshold 1/2; a best single candidate with IoU 1251/2500 and a fragment that takes the union to
+    1252/2502 (smaller by 3e-7)"""
+    ref = np.zeros((1, 2100), np.uint8)
+    pred = np.zeros((1, 2100), np.uint8)
+    ref[0, 0:1500] = 1
+    pred[0, 499:2000] = 1                   # inter 1001 ... adjust: |ref| = 1500, |pred| = 1501, inter = 1001 -> union 2000
+    pred[0, 499] = 0                        # |pred| = 1500, inter = 1000, union 2000 -> IoU 1/2 exactly
+    pred[0, 2000] = 1                       # |pred| = 1501, union 2001 -> IoU 1000/2001 < 1/2
+    ctx.count("scores_within_1e-3_of_threshold")
+    one_case(ctx, pred, ref, "IOU", (1, 2), "corpus.hairline-below-threshold")
+    ref = np.zeros((1, 2600), np.uint8)
+    pred = np.zeros((1, 2600), np.uint8)
+    ref[0, 0:1875] = 1
+    pred[0, 624:2500] = 1                   # |pred| = 1876, inter = 1251, union 2500 -> 0.5004
+    pred[0, 0] = 2                          # fragment: one voxel inside ...
+    pred[0, 2550] = 2                       # ... and one outside: union 2502, inter 1252 -> 0.50039968
+    ctx.count("scores_within_1e-3_of_threshold")
+    one_case(ctx, pred, ref, "IOU", (1, 2), "corpus.hairline-merge")
+
+
 def big_and_small_corpus(ctx):
     """reference with a large id covered by a large-id fragment (the better one) and a small-id fragment that alone still
     meets the threshold: pair codes beyond 2^32 next to small ones"""
@@ -416,6 +438,7 @@ def run(ctx):
     narrow_corpus(ctx)
     big_and_small_corpus(ctx)
     assd_above_one_corpus(ctx)
+    hairline_corpus(ctx)
     rng = ctx.rng
     for i in range(ctx.scale(6, 30)):
         p, r = big_id_chain(rng)
